@@ -7,7 +7,9 @@ ROOT = os.environ.get('VERIF_ROOT', os.path.dirname(os.path.dirname(os.path.absp
 MUTS = {
  'C06': [
   ('m1_no_swap_when_node1_is_reference', 'Network/NodalAnalysis/node_analysis.py', "    if network.is_zero_node(node1):\n        node1, node2 = node2, node1\n", "    if network.is_zero_node(node2):\n        node1, node2 = node2, node1\n"),
-  ('m2_offdiag_index', 'Network/NodalAnalysis/node_analysis.py', "    return Z[i1][i1]", "    return Z[i1][i1-1]"),
+  ('m2_offdiag_index', 'Network/NodalAnalysis/node_analysis.py', "    return np.linalg.solve(A, unit_current)[i1]", "    return np.linalg.solve(A, unit_current)[i1-1]"),
+  ('m9_unpruned_index_again', 'Network/NodalAnalysis/node_analysis.py', "    i1 = int(np.count_nonzero(keep[:node_index_mapper(network)[node1]]))", "    i1 = node_index_mapper(network)[node1]"),
+  ('m10_admittance_matrix_instead_of_mna', 'Network/NodalAnalysis/node_analysis.py', "    A = nodal_analysis_coefficient_matrix(network, node_mapper=node_index_mapper)\n    keep", "    A = node_admittance_matrix(network, node_index_mapper=node_index_mapper)\n    keep"),
   ('m3_voc_sign', 'Network/NodalAnalysis/bias_point_analysis.py', "    return phi1-phi2", "    return phi2-phi1"),
   ('m4_isc_formula', 'Network/NodalAnalysis/bias_point_analysis.py', "    return V/Z", "    return V*Z"),
   ('m5_sweep_ignores_frequency', 'Circuit/impedance.py', "ntw_imp.open_circuit_impedance(transform_circuit(circuit, w0), node1, node2) for w0 in w", "ntw_imp.open_circuit_impedance(transform_circuit(circuit, 0), node1, node2) for w0 in w"),
@@ -23,7 +25,9 @@ MUTS = {
   ('m5_rms_lines', 'Circuit/solution.py', "w=w, peak_values=True) for w in self.w])", "w=w, peak_values=False) for w in self.w])"),
   ('m6_current_uses_voltage', 'Circuit/solution.py', "        currents = [solution.get_current(component_id) for solution in self._solutions]\n        return np.vectorize", "        currents = [solution.get_voltage(component_id) for solution in self._solutions]\n        return np.vectorize"),
   ('m7_gate_off_by_factor', 'Circuit/transformers.py', "    if np.abs(w-cs_w) > w_resolution:\n        element = elm.open_circuit(current_source.id)\n    return ntw.Branch(\n        current_source.nodes[0],\n        current_source.nodes[1],\n        element\n    )\n\ndef ac_current_source", "    if np.abs(w-cs_w) > 1000*w_resolution:\n        element = elm.open_circuit(current_source.id)\n    return ntw.Branch(\n        current_source.nodes[0],\n        current_source.nodes[1],\n        element\n    )\n\ndef ac_current_source"),
-  ('m8_unsorted', 'Circuit/circuit.py', "    return sorted(list(set([w for c in circuit.components for w in frequencies(c)])))", "    return list(set([w for c in circuit.components for w in frequencies(c)]))"),
+  ('m8_unsorted', 'Circuit/circuit.py', "    for w in sorted([w for c in circuit.components for w in frequencies(c)]):", "    for w in [w for c in circuit.components for w in frequencies(c)]:"),
+  ('m9_merge_only_equal', 'Circuit/circuit.py', "w - distinct_frequencies[-1] > w_resolution:", "w - distinct_frequencies[-1] > 0:"),
+  ('m10_dc_line_halved', 'Circuit/solution.py', "values[:len(self.w)-len(self.w[ac])], values[ac]/2))", "values[:len(self.w)-len(self.w[ac])]/2, values[ac]/2))"),
  ]}
 prop = sys.argv[1]
 only = sys.argv[2:] 
